@@ -470,3 +470,37 @@ pub(crate) fn serve_for_test(
     };
     tokio::spawn(BmpClient::serve(stream, cancel, global, tables, policy))
 }
+
+// ------------------------------------------------------------------------------------------------
+// C18: the BMP client is one of the daemon's real monitoring subscribers.  Its fold of the snapshot phase
+// (`apply_snapshot`, private to this module) is exposed to the subscribe replay of the table_manager harness, which feeds it
+// the very events a subscriber received before EndOfSnapshot.
+// ------------------------------------------------------------------------------------------------
+pub(crate) struct SnapFold {
+    pre: SnapshotMap,
+    post: SnapshotMap,
+}
+
+impl SnapFold {
+    pub(crate) fn new() -> Self {
+        SnapFold { pre: SnapshotMap::default(), post: SnapshotMap::default() }
+    }
+
+    pub(crate) fn apply(&mut self, post: bool, change: crate::table_manager::AdjRibInChange) {
+        apply_snapshot(if post { &mut self.post } else { &mut self.pre }, change);
+    }
+
+    /// (peer, nlri, attributes) of everything the snapshot holds
+    pub(crate) fn contents(&self, post: bool) -> Vec<(IpAddr, packet::Nlri, Arc<Vec<packet::Attribute>>)> {
+        let m = if post { &self.post } else { &self.pre };
+        let mut v = Vec::new();
+        for (peer, routes) in m {
+            for ((_, n), c) in routes {
+                if let Some(a) = &c.attrs {
+                    v.push((*peer, n.nlri.clone(), a.clone()));
+                }
+            }
+        }
+        v
+    }
+}
